@@ -6,20 +6,27 @@ import (
 	"context"
 	"fmt"
 	"math/big"
+	"sort"
 	"strconv"
+	"strings"
 	"testing"
 
 	sdkmath "cosmossdk.io/math"
+	"cosmossdk.io/store/prefix"
 	"github.com/cosmos/cosmos-sdk/codec"
 	codectypes "github.com/cosmos/cosmos-sdk/codec/types"
 	sdk "github.com/cosmos/cosmos-sdk/types"
+	"github.com/cosmos/gogoproto/proto"
+	ethcommon "github.com/ethereum/go-ethereum/common"
+	ethtypes "github.com/ethereum/go-ethereum/core/types"
+	ethcrypto "github.com/ethereum/go-ethereum/crypto"
 	"github.com/palomachain/paloma/v2/util/libcons"
 	"github.com/palomachain/paloma/v2/util/palomath"
+	consensuskeeper "github.com/palomachain/paloma/v2/x/consensus/keeper/consensus"
 	consensustypes "github.com/palomachain/paloma/v2/x/consensus/types"
 	evmtypes "github.com/palomachain/paloma/v2/x/evm/types"
 	valsettypes "github.com/palomachain/paloma/v2/x/valset/types"
 )
-
 
 func valAddrOf(i int) sdk.ValAddress {
 	b := make([]byte, 20)
@@ -30,9 +37,9 @@ func valAddrOf(i int) sdk.ValAddress {
 }
 
 type c04Case struct {
-	total  *big.Int
-	vals   []pair // addr id, share
-	evs    []pair // addr id, hash id
+	total *big.Int
+	vals  []pair // addr id, share
+	evs   []pair // addr id, hash id
 }
 
 func (r *Rec) c04Snapshot(c c04Case) *valsettypes.Snapshot {
@@ -239,5 +246,555 @@ func TestC04(t *testing.T) {
 			r.Op(fmt.Sprintf("addev %s %s:%s", before, e.a, e.b), pairList(cur))
 		}
 		r.Case("addev|"+pairList(cur), steps > 1)
+	}
+
+	// ---------- whole histories on the real keepers against the C04 history model ----------
+	c04KeeperHistories(t, r)
+}
+
+// ---------------------------------------------------------------------------
+// Keeper-level histories (`hist` op of the C04 driver = `Hist.run` / `Hist.trace` of Model/Libcons.lean)
+//
+// One consensus queue of the full application, the stored current snapshot, and the operations of
+// the history model executed through the real entry points:
+//   s  SaveModifiedSnapshot (new current snapshot, total sometimes above the sum of shares)
+//   p  PutMessageInQueue (CompassHandover = no fees, SubmitLogicCall with exhausted retries = fee payer)
+//   v  MsgAddEvidence through the message router (proof kinds: 1-3 error proofs -> attester returns nil,
+//      4-5 reference-block results -> attester fails hard, 6-7 tx proofs with a failed receipt -> ErrEthTxFailed)
+//   g  MsgAddMessageGasEstimates through the message router
+//   e  CheckAndProcessEstimatedMessages (one `e` token per queued message, in queue order)
+//   a  CheckAndProcessAttestedMessages (one `a` token per queued message, in queue order)
+//   x  DeleteJob
+// Observed per operation: the new id / accepted or refused / a newly elected value / a declaration
+// (the effect the attester left: the failure event of the winning error proof, or the processed-tx
+// mark of the winning transaction), and at the end the whole queue and the list of declarations.
+// ---------------------------------------------------------------------------
+
+const (
+	c04HardFrom = 4 // proof ids >= 4: the attester fails with an error that drops the cache
+	c04SoftFrom = 6 // proof ids >= 6: ErrEthTxFailed, the cache is written
+)
+
+func c04JunkTx(nonce uint64) *ethtypes.Transaction {
+	key, _ := ethcrypto.ToECDSA(ethcrypto.Keccak256([]byte("c04-history")))
+	to := ethcommon.HexToAddress("0x00000000000000000000000000000000000000C4")
+	chainID := big.NewInt(4243)
+	tx, _ := ethtypes.SignNewTx(key, ethtypes.NewLondonSigner(chainID), &ethtypes.DynamicFeeTx{
+		ChainID: chainID, Nonce: nonce, To: &to, Data: []byte{0xa9, 0x30, 0xe8, 0xdc}, Gas: 100_000,
+		GasFeeCap: big.NewInt(1_000_000_000), GasTipCap: big.NewInt(1),
+	})
+	return tx
+}
+
+func c04Proof(t *testing.T, h int) *codectypes.Any {
+	var m proto.Message
+	switch {
+	case h >= c04SoftFrom:
+		raw, _ := c04JunkTx(uint64(h)).MarshalBinary()
+		rc, _ := (&ethtypes.Receipt{Type: ethtypes.DynamicFeeTxType, Status: ethtypes.ReceiptStatusFailed, CumulativeGasUsed: 21000}).MarshalBinary()
+		m = &evmtypes.TxExecutedProof{SerializedTX: raw, SerializedReceipt: rc}
+	case h >= c04HardFrom:
+		m = &evmtypes.ReferenceBlockAttestationRes{BlockHeight: uint64(h), BlockHash: "0xc04"}
+	default:
+		m = &evmtypes.SmartContractExecutionErrorProof{ErrorMessage: fmt.Sprintf("h%d", h)}
+	}
+	a, err := codectypes.NewAnyWithValue(m)
+	if err != nil {
+		t.Fatal(err)
+	}
+	return a
+}
+
+func c04ProofID(cdc codec.Codec, p *codectypes.Any) int {
+	var h evmtypes.Hashable
+	if err := cdc.UnpackAny(p, &h); err != nil {
+		return 0
+	}
+	switch e := h.(type) {
+	case *evmtypes.SmartContractExecutionErrorProof:
+		n, _ := strconv.Atoi(strings.TrimPrefix(e.ErrorMessage, "h"))
+		return n
+	case *evmtypes.ReferenceBlockAttestationRes:
+		return int(e.BlockHeight)
+	case *evmtypes.TxExecutedProof:
+		tx, err := e.GetTX()
+		if err != nil {
+			return 0
+		}
+		return int(tx.Nonce())
+	}
+	return 0
+}
+
+type c04Hist struct {
+	t    *testing.T
+	r    *Rec
+	fx   *q06Fix
+	c    *q06Case
+	ctx  sdk.Context
+	toks []string
+	outs []string
+	real []uint64 // ordinal-1 -> real message id
+	kind []string // ordinal-1 -> "o" (no fees) | "s" (fee payer)
+	req  []bool
+	ord  map[uint64]int
+	// fee setting of the assignee present (the fee step of a fee payer's election succeeds)
+	feeOK    bool
+	declared []string
+	prevEl   map[uint64]uint64
+}
+
+func (h *c04Hist) input() map[string]string {
+	return map[string]string{"ops": "hist " + strings.Join(h.toks, " "), "observed": strings.Join(h.outs, " ")}
+}
+
+func (h *c04Hist) emit(tok, out string) {
+	h.toks = append(h.toks, tok)
+	h.outs = append(h.outs, out)
+}
+
+func (h *c04Hist) evs(m consensustypes.QueuedSignedMessageI) [][2]int {
+	var out [][2]int
+	for _, e := range m.GetEvidence() {
+		out = append(out, [2]int{h.fx.idOfValAddr(e.ValAddress), c04ProofID(h.fx.cdc, e.Proof)})
+	}
+	return out
+}
+
+func c04IntPairs(ps [][2]int) string {
+	if len(ps) == 0 {
+		return "-"
+	}
+	s := make([]string, len(ps))
+	for i, p := range ps {
+		s[i] = fmt.Sprintf("%d:%d", p[0], p[1])
+	}
+	return strings.Join(s, ",")
+}
+
+func (h *c04Hist) ests(m consensustypes.QueuedSignedMessageI) string {
+	var s []string
+	for _, e := range m.GetGasEstimates() {
+		s = append(s, fmt.Sprintf("%d:%d", h.fx.idOfValAddr(e.ValAddress), e.Value))
+	}
+	if len(s) == 0 {
+		return "-"
+	}
+	return strings.Join(s, ",")
+}
+
+// snapshot publishes a new current snapshot; treasury rates are fixed so that the fee step of a fee
+// payer depends on the assignee's relayer fee only
+func (h *c04Hist) snapshot() {
+	env := h.r.q06GenEnv(h.fx, h.fx.n)
+	env.community, env.security = "0.03", "0.01"
+	h.feeOK = h.r.Rng.Intn(4) != 0
+	aid := h.fx.valID[0]
+	if h.feeOK {
+		env.fees[aid] = "1.1"
+	} else {
+		delete(env.fees, aid)
+	}
+	if err := h.fx.writeEnv(h.ctx, env); err != nil {
+		h.t.Fatal(err)
+	}
+	h.c.obs = h.fx.readObs(h.ctx)
+	h.emit("s/"+h.c.obs.total.String()+"/"+h.c.snapPairs(), "ok")
+	h.r.Stat("hist.op.snapshot")
+}
+
+// power of the distinct snapshot validators among `who`
+func (h *c04Hist) power(who map[int]bool) *big.Int {
+	sum := new(big.Int)
+	for id := range who {
+		if s, ok := h.c.obs.shares[id]; ok {
+			sum.Add(sum, s)
+		}
+	}
+	return sum
+}
+
+func (h *c04Hist) twoThirds(sum *big.Int) bool {
+	return new(big.Int).Mul(sum, bi(3)).Cmp(new(big.Int).Mul(h.c.obs.total, bi(2))) >= 0
+}
+
+// invariants of the property that must hold after every operation
+func (h *c04Hist) checkAll() {
+	for _, m := range h.c.msgs() {
+		seen := map[int]bool{}
+		for _, e := range h.evs(m) {
+			if seen[e[0]] {
+				h.r.Hit("hist_one_evidence_per_validator", "validator has two evidence entries", h.input())
+			}
+			seen[e[0]] = true
+		}
+		seen = map[int]bool{}
+		for _, e := range m.GetGasEstimates() {
+			id := h.fx.idOfValAddr(e.ValAddress)
+			if seen[id] {
+				h.r.Hit("hist_one_estimate_per_validator", "validator has two estimates", h.input())
+			}
+			seen[id] = true
+		}
+		if prev, ok := h.prevEl[m.GetId()]; ok && prev != 0 && m.GetGasEstimate() != prev {
+			h.r.Hit("hist_elected_immutable", fmt.Sprintf("elected estimate changed from %d to %d", prev, m.GetGasEstimate()), h.input())
+		}
+		h.prevEl[m.GetId()] = m.GetGasEstimate()
+	}
+}
+
+func (h *c04Hist) pickOrd() (int, uint64) {
+	// mostly an existing ordinal (possibly already removed), sometimes one that was never issued
+	if len(h.real) == 0 || h.r.Rng.Intn(25) == 0 {
+		return len(h.real) + 1 + h.r.Rng.Intn(2), 1<<40 + uint64(h.r.Rng.Intn(5))
+	}
+	o := 1 + h.r.Rng.Intn(len(h.real))
+	return o, h.real[o-1]
+}
+
+func (h *c04Hist) put() {
+	kind := "o"
+	if h.r.Rng.Intn(2) == 0 {
+		kind = "s"
+	}
+	req := h.r.Rng.Intn(5) != 0
+	m, err := h.c.action(kind, 10+len(h.real), 1, false)
+	if err != nil {
+		h.t.Fatal(err)
+	}
+	m.Assignee, m.AssigneeRemoteAddress = h.fx.fa.ValAddr(0).String(), h.fx.addrStr[4]
+	id, err := h.fx.fa.App().ConsensusKeeper.PutMessageInQueue(h.ctx, h.fx.queue, m,
+		&consensuskeeper.PutOptions{RequireGasEstimation: req, RequireSignatures: true})
+	if err != nil {
+		h.t.Fatal(err)
+	}
+	h.real = append(h.real, id)
+	h.kind = append(h.kind, kind)
+	h.req = append(h.req, req)
+	h.ord[id] = len(h.real)
+	h.emit("p/"+q06B(req), fmt.Sprintf("id:%d", len(h.real)))
+	h.r.Stat("hist.op.put." + kind)
+}
+
+func (h *c04Hist) proofFor(o, nh int) int {
+	p := 1 + h.r.Rng.Intn(nh)
+	switch h.r.Rng.Intn(12) {
+	case 0:
+		p = c04HardFrom + h.r.Rng.Intn(2)
+	case 1:
+		p = c04SoftFrom + h.r.Rng.Intn(2)
+	}
+	if o <= len(h.kind) && h.r.Rng.Intn(3) != 0 {
+		// keep most messages on one proof family so that hard / soft winners do reach quorum
+		switch o % 4 {
+		case 2:
+			p = c04HardFrom + h.r.Rng.Intn(2)
+		case 3:
+			p = c04SoftFrom + h.r.Rng.Intn(2)
+		}
+	}
+	return p
+}
+
+func (h *c04Hist) submitEv(o int, id uint64, vi, p int) {
+	v := h.fx.fa.Vals[vi]
+	err := h.c.route(&consensustypes.MsgAddEvidence{Proof: c04Proof(h.t, p), MessageID: id, QueueTypeName: h.fx.queue, Metadata: FAMeta(v.Addr, v.Addr)})
+	out := "ok"
+	if err != nil {
+		out = "rejected"
+	} else if m := h.c.msg(id); m != nil {
+		// the stored proof of this validator is the one just submitted
+		found := false
+		for _, e := range h.evs(m) {
+			if e[0] == h.fx.valID[vi] && e[1] == p {
+				found = true
+			}
+		}
+		if !found {
+			h.r.Hit("hist_latest_submission", fmt.Sprintf("validator %d: stored proof is not its latest submission %d", h.fx.valID[vi], p), h.input())
+		}
+	}
+	h.emit(fmt.Sprintf("v/%d/%d/%d", o, h.fx.valID[vi], p), out)
+	h.r.Stat("hist.op.evidence." + out)
+}
+
+func (h *c04Hist) evidence(nh int) {
+	o, id := h.pickOrd()
+	h.submitEv(o, id, h.r.Rng.Intn(h.fx.n), h.proofFor(o, nh))
+}
+
+// evidenceSweep: most validators agree on one proof (quorum or one validator short of it)
+func (h *c04Hist) evidenceSweep(nh int) {
+	o, id := h.pickOrd()
+	p := h.proofFor(o, nh)
+	for _, vi := range h.r.Rng.Perm(h.fx.n) {
+		switch x := h.r.Rng.Intn(10); {
+		case x < 7:
+			h.submitEv(o, id, vi, p)
+		case x < 8:
+			h.submitEv(o, id, vi, h.proofFor(o, nh))
+		}
+	}
+	h.r.Stat("hist.op.evidence_sweep")
+}
+
+func (h *c04Hist) submitEst(o int, id uint64, vi int) {
+	v := h.fx.fa.Vals[vi]
+	val := uint64(h.r.Rng.Intn(6))
+	if h.r.Rng.Intn(3) == 0 {
+		val = h.r.U64()
+	}
+	if o <= len(h.kind) && h.kind[o-1] == "s" {
+		val %= 1 << 56 // a fee payer's fees (1.1 x estimate and fractions of that) stay inside uint64
+	}
+	err := h.c.route(&consensustypes.MsgAddMessageGasEstimates{Metadata: FAMeta(v.Addr, v.Addr), Estimates: []*consensustypes.MsgAddMessageGasEstimates_GasEstimate{
+		{MsgId: id, QueueTypeName: h.fx.queue, Value: val, EstimatedByAddress: v.EthAddr.Hex()}}})
+	out := "ok"
+	if err != nil {
+		out = "rejected"
+	}
+	h.emit(fmt.Sprintf("g/%d/%d/%d", o, h.fx.valID[vi], val), out)
+	h.r.Stat("hist.op.estimate." + out)
+}
+
+func (h *c04Hist) estimate() {
+	o, id := h.pickOrd()
+	h.submitEst(o, id, h.r.Rng.Intn(h.fx.n))
+}
+
+func (h *c04Hist) estimateSweep() {
+	o, id := h.pickOrd()
+	for _, vi := range h.r.Rng.Perm(h.fx.n) {
+		if h.r.Rng.Intn(10) < 7 {
+			h.submitEst(o, id, vi)
+		}
+	}
+	h.r.Stat("hist.op.estimate_sweep")
+}
+
+func (h *c04Hist) elect() {
+	before := h.c.msgs()
+	if err := h.fx.fa.App().ConsensusKeeper.CheckAndProcessEstimatedMessages(h.ctx); err != nil {
+		h.t.Fatal(err)
+	}
+	for _, m := range before {
+		o := h.ord[m.GetId()]
+		fee := true
+		if h.kind[o-1] == "s" {
+			fee = h.feeOK
+		}
+		out := "-"
+		if !fee && m.GetRequireGasEstimation() && m.GetGasEstimate() == 0 && len(m.GetGasEstimates()) > 0 {
+			who := map[int]bool{}
+			for _, e := range m.GetGasEstimates() {
+				who[h.fx.idOfValAddr(e.ValAddress)] = true
+			}
+			if h.twoThirds(h.power(who)) && len(h.c.obs.shares) > 0 {
+				h.r.Stat("hist.elect.fee_step_failed_with_quorum")
+			}
+		}
+		now := h.c.msg(m.GetId())
+		if now != nil && now.GetGasEstimate() != m.GetGasEstimate() {
+			g := now.GetGasEstimate()
+			out = fmt.Sprintf("elected:%d", g)
+			h.r.Stat("hist.elected")
+			// the property, on what was stored before: 2/3 of the snapshot submitted (each once), the
+			// value is the median of all submitted values and lies between the lowest and the highest
+			who := map[int]bool{}
+			var vals []uint64
+			for _, e := range m.GetGasEstimates() {
+				who[h.fx.idOfValAddr(e.ValAddress)] = true
+				vals = append(vals, e.Value)
+			}
+			if m.GetGasEstimate() != 0 {
+				h.r.Hit("hist_elected_immutable", fmt.Sprintf("elected estimate %d replaced by %d", m.GetGasEstimate(), g), h.input())
+			}
+			if !h.twoThirds(h.power(who)) {
+				h.r.Hit("hist_estimate_needs_two_thirds", fmt.Sprintf("elected %d with %s of %s", g, h.power(who), h.c.obs.total), h.input())
+			}
+			sv := sortedU64(vals)
+			le, ge := 0, 0
+			for _, x := range sv {
+				if x <= g {
+					le++
+				}
+				if x >= g {
+					ge++
+				}
+			}
+			if len(sv) == 0 || g < sv[0] || g > sv[len(sv)-1] || 2*le < len(sv) || 2*ge < len(sv) {
+				h.r.Hit("hist_elected_is_median", fmt.Sprintf("elected %d is not a median of %v", g, sv), h.input())
+			}
+		}
+		h.emit(fmt.Sprintf("e/%d/%s", o, q06B(fee)), out)
+	}
+	h.r.Stat("hist.op.elect")
+}
+
+func (h *c04Hist) txProcessed(p int) bool {
+	st := prefix.NewStore(h.ctx.KVStore(h.fx.fa.kvKeys()[evmtypes.StoreKey]), []byte("tx-processed"))
+	return st.Has(c04JunkTx(uint64(p)).Hash().Bytes())
+}
+
+func (h *c04Hist) attest() {
+	before := h.c.msgs()
+	ectx := h.ctx.WithEventManager(sdk.NewEventManager())
+	if err := h.fx.fa.App().ConsensusKeeper.CheckAndProcessAttestedMessages(ectx); err != nil {
+		h.t.Fatal(err)
+	}
+	// failure events by message id
+	failed := map[uint64]string{}
+	for _, ev := range ectx.EventManager().Events() {
+		isFail, id, msg := false, "", ""
+		for _, a := range ev.Attributes {
+			switch {
+			case a.Key == sdk.AttributeKeyAction && a.Value == evmtypes.SmartContractExecutionFailedKey:
+				isFail = true
+			case a.Key == string(evmtypes.SmartContractExecutionFailedMessageID):
+				id = a.Value
+			case a.Key == string(evmtypes.SmartContractExecutionFailedError):
+				msg = a.Value
+			}
+		}
+		if isFail {
+			n, _ := strconv.ParseUint(id, 10, 64)
+			failed[n] = strings.TrimPrefix(msg, "h")
+		}
+	}
+	for _, m := range before {
+		o := h.ord[m.GetId()]
+		out, hint := "-", "-"
+		evs := h.evs(m)
+		// quorum groups as the property defines them: distinct snapshot validators per proof
+		groups := map[int]map[int]bool{}
+		for _, e := range evs {
+			if groups[e[1]] == nil {
+				groups[e[1]] = map[int]bool{}
+			}
+			groups[e[1]][e[0]] = true
+		}
+		if h.c.msg(m.GetId()) == nil {
+			w := "?"
+			soft := false
+			if f, ok := failed[m.GetId()]; ok {
+				w = f
+			} else {
+				// a failed-receipt proof won: its transaction is now marked as processed
+				for p := c04SoftFrom; p < c04SoftFrom+2; p++ {
+					if h.txProcessed(p) && groups[p] != nil && h.twoThirds(h.power(groups[p])) {
+						w, soft = strconv.Itoa(p), true
+					}
+				}
+			}
+			hint = w
+			if soft {
+				out = "declaredsoft:" + w
+				h.declared = append(h.declared, fmt.Sprintf("%d:%s:1", o, w))
+				h.r.Stat("hist.declared.soft")
+			} else {
+				out = "declared:" + w
+				h.declared = append(h.declared, fmt.Sprintf("%d:%s:0", o, w))
+				h.r.Stat("hist.declared.ok")
+			}
+			// the property: removed with its effects only with 2/3 of the current snapshot on that proof
+			wi, _ := strconv.Atoi(w)
+			if groups[wi] == nil || !h.twoThirds(h.power(groups[wi])) {
+				h.r.Hit("hist_declared_needs_two_thirds", fmt.Sprintf("message %d declared on proof %s without two thirds of %s", o, w, h.c.obs.total), h.input())
+			}
+		} else {
+			if _, ok := failed[m.GetId()]; ok {
+				h.r.Hit("hist_effect_without_removal", fmt.Sprintf("message %d: effects applied but the message is still queued", o), h.input())
+			}
+			h.r.Stat("hist.attest.kept")
+			for p := c04HardFrom; p < c04SoftFrom; p++ {
+				if groups[p] != nil && h.twoThirds(h.power(groups[p])) {
+					h.r.Stat("hist.attest.kept_on_hard_failure")
+				}
+			}
+		}
+		h.emit(fmt.Sprintf("a/%d/%s/%d,%d/%d,%d", o, hint, c04HardFrom, c04HardFrom+1, c04SoftFrom, c04SoftFrom+1), out)
+	}
+	h.r.Stat("hist.op.attest")
+}
+
+func (h *c04Hist) prune() {
+	o, id := h.pickOrd()
+	err := h.fx.fa.App().ConsensusKeeper.DeleteJob(h.ctx, h.fx.queue, id)
+	out := "ok"
+	if err != nil {
+		out = "rejected"
+	}
+	h.emit(fmt.Sprintf("x/%d", o), out)
+	h.r.Stat("hist.op.prune." + out)
+}
+
+func (h *c04Hist) final() string {
+	var items []string
+	ms := h.c.msgs()
+	sort.Slice(ms, func(i, j int) bool { return ms[i].GetId() < ms[j].GetId() })
+	for _, m := range ms {
+		o := h.ord[m.GetId()]
+		items = append(items, fmt.Sprintf("%d/%s/%d/%s/%s", o, q06B(m.GetRequireGasEstimation()), m.GetGasEstimate(), h.ests(m), c04IntPairs(h.evs(m))))
+	}
+	q, d := "-", "-"
+	if len(items) > 0 {
+		q = strings.Join(items, ";")
+	}
+	if len(h.declared) > 0 {
+		d = strings.Join(h.declared, ",")
+	}
+	return fmt.Sprintf("next=%d q=%s declared=%s", len(h.real), q, d)
+}
+
+func c04KeeperHistories(t *testing.T, r *Rec) {
+	n := r.N / 20
+	if n > 400 {
+		n = 400
+	}
+	if n == 0 {
+		return
+	}
+	fx := q06NewFix(t, 6)
+	for i := 0; i < n; i++ {
+		fx.hookCase(func(ctx sdk.Context) {
+			c := &q06Case{fx: fx, r: r, ctx: ctx, hist: map[uint64][]string{}, bhist: map[uint64][]string{}, keyAtSign: map[string][]byte{},
+				prevSigs: map[uint64]map[string]bool{}, prevBytes: map[uint64]string{}, mevOf: map[uint64]bool{}}
+			for _, m := range c.msgs() {
+				_ = fx.fa.App().ConsensusKeeper.DeleteJob(ctx, fx.queue, m.GetId())
+			}
+			h := &c04Hist{t: t, r: r, fx: fx, c: c, ctx: ctx, ord: map[uint64]int{}, prevEl: map[uint64]uint64{}}
+			h.snapshot()
+			h.put()
+			nh := 1 + r.Rng.Intn(3)
+			nOps := 6 + r.Rng.Intn(30)
+			for j := 0; j < nOps; j++ {
+				switch x := r.Rng.Intn(40); {
+				case x < 2:
+					h.snapshot()
+				case x < 5 && len(h.real) < 4:
+					h.put()
+				case x < 13:
+					h.evidence(nh)
+				case x < 17:
+					h.evidenceSweep(nh)
+				case x < 25:
+					h.estimate()
+				case x < 28:
+					h.estimateSweep()
+				case x < 33:
+					h.elect()
+				case x < 39:
+					h.attest()
+				default:
+					h.prune()
+				}
+				h.checkAll()
+			}
+			h.elect()
+			h.attest()
+			h.checkAll()
+			r.Op("hist "+strings.Join(h.toks, " "), strings.Join(h.outs, " ")+" | "+h.final())
+			r.Case("hist|"+strings.Join(h.toks, " "), len(h.toks) > 4)
+		})
 	}
 }
